@@ -1067,6 +1067,10 @@ N('davidson-extension-full-pivoting', 'C15',
 N('davidson-correction-count-from-ritz-values', 'C15',
   [('DavidsonSymEigsSolver.h', "Index(residues.cols()));", "Index(eigvals.size()));")], 'same count from the other array')
 
+# ----------------------------------------------------------------------------- F47
+M('arnoldi-init-overflowed-norm-not-handled', 'C13,C01', 'division-by-norm-guarded',
+  [('LinAlg/Arnoldi.h', "        if (!(std::isfinite)(vnorm))\n        {\n            v /= v.cwiseAbs().maxCoeff();\n            vnorm = m_op.norm(v);\n        }\n", "")], 'reverts fix F47')
+
 # ----------------------------------------------------------------------------- F46
 M('expand-basis-accepts-a-rounding-residue', 'C07,C13', 'fresh-direction-has-positive-norm',
   [('LinAlg/Arnoldi.h', "if (ortho_err < m_eps * fnorm && fnorm > sqrt(m_eps) * fnorm0)", "if (ortho_err < m_eps * fnorm)")], 'reverts fix F46')
